@@ -900,6 +900,30 @@ func runC17(c *core.Ctx) {
 						if _, isSlice := x.Type().Underlying().(*types.Slice); isSlice {
 							bad = "parameter " + x.Name()
 						}
+						// the buffer of the write in progress handed to an unexported step of the store: its own when every
+						// caller passes the address of a local (or captured local) bytes.Buffer
+						if pt, isPtr := x.Type().Underlying().(*types.Pointer); isPtr && !fn.Object().Exported() {
+							if bt := namedOfType(pt.Elem()); bt != nil && bt.Obj().Pkg() != nil && bt.Obj().Pkg().Path() == "bytes" && bt.Obj().Name() == "Buffer" {
+								idx := core.ParamIndex(x)
+								sites, own := 0, true
+								for _, g := range p.ModFns {
+									for _, ci := range core.Calls(g) {
+										if ci.Common().StaticCallee() != fn || idx >= len(ci.Common().Args) {
+											continue
+										}
+										sites++
+										switch core.Strip(ci.Common().Args[idx]).(type) {
+										case *ssa.Alloc, *ssa.FreeVar:
+										default:
+											own = false
+										}
+									}
+								}
+								if sites > 0 && own {
+									fresh = true
+								}
+							}
+						}
 					case *ssa.MakeSlice:
 						fresh = true
 					case *ssa.Alloc:
